@@ -175,6 +175,23 @@ func (r *FileRestorer) updateImports() error {
 		return nil
 	}
 
+	// An import path that is not a valid string literal (a tree that came back from the parser
+	// together with a syntax error) is reported as an error.
+	var invalid error
+	dst.Inspect(r.file, func(n dst.Node) bool {
+		if is, ok := n.(*dst.ImportSpec); ok && invalid == nil {
+			if is.Path == nil {
+				invalid = fmt.Errorf("import spec without a path")
+			} else if _, err := strconv.Unquote(is.Path.Value); err != nil {
+				invalid = fmt.Errorf("invalid import path %s: %w", is.Path.Value, err)
+			}
+		}
+		return invalid == nil
+	})
+	if invalid != nil {
+		return invalid
+	}
+
 	// list of the import block(s)
 	var blocks []*dst.GenDecl
 
